@@ -5,6 +5,51 @@ import subprocess
 from common import build_harness, log
 
 
+OP_LIMIT = 240      # seconds ONE op may take before the process is stopped (every real op takes milliseconds to a few seconds)
+
+
+def _run_watched(hbin, payload, batch_timeout):
+    """run the harness over a batch; stop it when a single op (not the batch) exceeds OP_LIMIT.  -> (stdout, stderr, rc)"""
+    import tempfile
+    import threading
+    import time
+    with tempfile.TemporaryFile("w+") as ferr:
+        p = subprocess.Popen([hbin], stdin=subprocess.PIPE, stdout=subprocess.PIPE, stderr=ferr, text=True,
+                             env={"GOMEMLIMIT": "8GiB", "GOTRACEBACK": "single"})
+        lines = []
+        last = [time.time()]
+
+        def reader():
+            for line in p.stdout:
+                lines.append(line)
+                last[0] = time.time()
+
+        def writer():
+            try:
+                p.stdin.write(payload)
+                p.stdin.close()
+            except (BrokenPipeError, OSError):
+                pass
+        tr = threading.Thread(target=reader, daemon=True)
+        tw = threading.Thread(target=writer, daemon=True)
+        tr.start()
+        tw.start()
+        t0 = time.time()
+        timed_out = False
+        while p.poll() is None:
+            time.sleep(0.2)
+            now = time.time()
+            if now - last[0] > OP_LIMIT or now - t0 > batch_timeout:
+                timed_out = True
+                p.kill()
+                break
+        p.wait()
+        tr.join(5)
+        ferr.seek(0)
+        err = ferr.read()
+        return "".join(lines), ("timeout" if timed_out else err), (-9 if timed_out else p.returncode)
+
+
 def run_ops(reqs, timeout=None):
     """Run ops through the real code.  Returns a list of response dicts aligned with reqs.
     A fatal (unrecoverable) crash of the harness process (e.g. Go stack overflow) is
@@ -19,13 +64,7 @@ def run_ops(reqs, timeout=None):
     start = 0
     while start < len(reqs):
         payload = "".join(json.dumps(r) + "\n" for r in reqs[start:])
-        try:
-            p = subprocess.run([hbin], input=payload, capture_output=True, text=True, timeout=timeout,
-                               env={"GOMEMLIMIT": "8GiB", "GOTRACEBACK": "single"})
-            stdout, stderr, rc = p.stdout, p.stderr, p.returncode
-        except subprocess.TimeoutExpired as e:
-            stdout = e.stdout.decode() if isinstance(e.stdout, bytes) else (e.stdout or "")
-            stderr, rc = "timeout", -9
+        stdout, stderr, rc = _run_watched(hbin, payload, timeout)
         begun = None
         for line in stdout.split("\n"):
             try:
